@@ -5,7 +5,7 @@
 From Coq Require Import List ZArith Bool.
 From VBase Require Import MachInt FieldOps ZpOps.
 From VGen Require Import F64 F128.
-From VModel Require Import ToyHash Merkle Coin ExtField Fri.
+From VModel Require Import ToyHash Merkle Coin ExtField Fri FriMerkle.
 Import ListNotations.
 
 (* ---------------------------------------------------------------- fields *)
@@ -46,23 +46,10 @@ Definition ops128x2 : FOps (Z * Z) := quad_ops ops128 (f128_x2 ops128).
 Definition emb (x : Z) : Z * Z := (x, 0%Z).
 
 (* ---------------------------------------------------------------- ToyHasher + Merkle + coin *)
-Definition tm_new (leaves : list Z) : option (mtree Z) :=
-  match Merkle.mt_new Z 0%Z toy_merge leaves with Merkle.Ok t => Some t | _ => None end.
-Definition tm_root (t : mtree Z) : Z :=
-  match Merkle.mt_root Z t with Merkle.Ok r => r | _ => 0%Z end.
-Definition tm_prove_batch (t : mtree Z) (positions : list nat) : option (list (list Z)) :=
-  match Merkle.mt_prove_batch Z 0%Z t (map Z.of_nat positions) with
-  | Merkle.Ok p => Some (bp_nodes p)
-  | _ => None
-  end.
-Definition tm_verify_batch (root : Z) (indexes : list nat) (leaves : list Z) (nodes : list (list Z)) (depth : nat)
-  : auth_res :=
-  match Merkle.verify_batch Z Z.eqb toy_merge root (map Z.of_nat indexes)
-          {| bp_leaves := leaves; bp_nodes := nodes; bp_depth := Z.of_nat depth |} with
-  | Merkle.Ok _ => AuthOk
-  | Merkle.Err _ => AuthErr
-  | Merkle.Panic => AuthPanic
-  end.
+Definition tm_new : list Z -> option (mtree Z) := cm_new Z 0%Z toy_merge.
+Definition tm_root : mtree Z -> Z := cm_root Z 0%Z.
+Definition tm_prove_batch : mtree Z -> list nat -> option (list (list Z)) := cm_prove_batch Z 0%Z.
+Definition tm_verify_batch : Z -> list nat -> list Z -> list (list Z) -> nat -> auth_res := cm_verify_batch Z Z.eqb toy_merge.
 
 Definition tc_reseed : coin Z -> Z -> coin Z := coin_reseed Z toy_merge.
 Definition tc_draw {E : Type} (k : fkind) (dec : list Z -> E) (c : coin Z) : coin Z * draw_res E :=
